@@ -286,6 +286,12 @@ def parse_xmile(filename):
             for elem in entity:
                 elem["equation_parsed"] = [makeExpressionAbsolute(name,visitor.visit(grammar.parse(x)),connects=IR["assignments"],entity=entity,dimensions=IR["dimensions"]) for x in elem["equation"]]
 
+                # A flow defined by a graphical function: its value is the function applied to the equation
+                # (auxiliaries get their LERP call from the generator template)
+                if entity_type == "flow" and len(elem["gf"]) > 0 and not elem["dimensions"]:
+                    elem["equation_parsed"] = [{"name": 'lookup', "type": 'call', "args": [
+                        {"name": elem["name"], "type": 'identifier'}, deepcopy(elem["equation_parsed"])]}]
+
                 # Handle Non-Negative stocks
                 if elem["non_negative"]:
                     if type(elem["equation_parsed"]) is float: # Fixed value, can be stored directly as the actual max of 0 and value
